@@ -234,6 +234,17 @@ pub fn run(seed: u64, count: usize, _thorough: bool, out: &mut Out) {
             p.remove_atoms_by(|_| true);
             label = "no-atoms-with-containers";
         }
+        if i % 23 == 0 && p.model_count() > 1 {
+            // one model emptied: the first, or a later one (the structure still has atoms)
+            let which = if i % 2 == 0 { 0 } else { p.model_count() - 1 };
+            if let Some(m) = p.model_mut(which) {
+                m.remove_atoms_by(|_| true);
+                if i % 4 < 2 {
+                    m.remove_empty();
+                }
+            }
+            label = if which == 0 { "first-model-empty" } else { "last-model-empty" };
+        }
         let psx = full(&p);
         out.case("C18", call("validate", vec![psx.clone()]), diags(&validate(&p)), "prop:validate", true);
         out.case("C18", call("validate_pdb", vec![tbl.clone(), psx]), diags(&validate_pdb(&p)), "prop:validate_pdb", true);
